@@ -41,6 +41,21 @@ def holdsBridge (srcReads tgtReads : List ReadEv) (o : BridgeObs) : Bool :=
   o.returned && o.srcClosed && o.tgtClosed && o.removed &&
   o.sent == o.toTarget.length && o.received == o.toSource.length
 
+/-- A direction whose scripts contain no fault: no fatal read, no cancellation, and every write of the
+receiving end accepts everything without error and without blocking. -/
+def faultFreeDir (reads : List ReadEv) (writes : List WriteEv) : Bool :=
+  reads.all (fun ev => !ev.cancelled && ev.err != some .fatal) &&
+  writes.all (fun w => !w.err && !w.block && decide (maxRead reads ≤ w.accept))
+
+/-- "…is all of it if neither end closed early": when neither end's script contains a fault, the
+bridge never ends by itself — if it ended, one end reached its end-of-stream (and by the clauses of
+`holdsBridge` everything that end had sent was delivered). -/
+def holdsNoSpontaneousClose (srcReads tgtReads : List ReadEv) (srcWrites tgtWrites : List WriteEv)
+    (o : BridgeObs) : Bool :=
+  if faultFreeDir srcReads tgtWrites && faultFreeDir tgtReads srcWrites then
+    (if o.returned then o.s2tEof || o.t2sEof else true)
+  else true
+
 /-- The model's observation of a finished bridge. -/
 def Bridge.obs (b : Bridge) : BridgeObs :=
   { toTarget := b.s2t.st.delivered, toSource := b.t2s.st.delivered,
